@@ -15,7 +15,7 @@ def demo_dir(demo_src, patch):
     m = re.search(r"^package (\w+)", demo_src, re.M)
     pkg = m.group(1) if m else "eventbus"
     return {"state": "state", "state_test": "state", "sqlite": "stores/sqlite", "sqlite_test": "stores/sqlite",
-            "durablestream": "stores/durablestream", "otel": "otel", "otel_test": "otel"}.get(pkg, ".")
+            "durablestream": "stores/durablestream", "durablestream_test": "stores/durablestream", "otel": "otel", "otel_test": "otel"}.get(pkg, ".")
 
 def modules_touched(patch):
     mods = {"."}
